@@ -176,6 +176,13 @@ Definition run2 (c : string_kind * nat * list (list nat)) : list (list (list Z))
   let '(k, nv, cells) := c in
   let tb := derive (k_sortf k) nv cells (k_facets k) in
   [zll (T_facets tb); zll (T_t2f tb); T_f2t tb; [zl (T_bfacets tb)]; [zl (T_bnodes tb)]; [zl (T_inodes tb)]].
+Definition runinc (c : string_kind * nat * list (list nat)) : list (list (list Z)) :=
+  let '(k, nv, cells) := c in
+  let '(fac, _) := build_entities (k_sortf k) cells (k_facets k) in
+  let '(edg, _) := build_entities true cells (k_edges k) in
+  let n := nvertices cells in
+  [zll (incidence_01 fac n); zll (incidence_count cells n); zll (incidence_count edg n);
+   match edg with [] => [] | _ => zll (e2t_matrix cells edg) end].
 Definition run3 (c : string_kind * nat * list (list nat)) : list (list (list Z)) :=
   let '(k, nv, cells) := c in
   let tb := derive3 (k_sortf k) cells (k_facets k) (k_edges k) (k_bnd k) in
@@ -247,7 +254,12 @@ def _correspond(ctx, rng):
     defs = kind_defs() + CORR_DEFS
     n_geo = ctx.n(20, 120)
     n_abs = ctx.n(8, 40)
-    cases2, cases3, casesf = [], [], []
+    cases2, cases3, casesf, casesi = [], [], [], []
+    import skfem
+    # second-order meshes: the cell table lists the vertices only, the point array has more columns
+    for kind2, cls2 in (('tri', skfem.MeshTri2), ('quad', skfem.MeshQuad2), ('tet', skfem.MeshTet2), ('hex', skfem.MeshHex2)):
+        m2 = cls2().refined(1)
+        cases2.append((case_input(kind2, m2), tables2(m2), (kind2, 'second-order', m2.t.shape[1], True)))
     for kind in KINDS:
         for i in range(n_geo + n_abs):
             if i < n_geo:
@@ -278,6 +290,11 @@ def _correspond(ctx, rng):
                              {'kind': kind, 'p': np.asarray(m.p).tolist(), 't': np.asarray(m.t).tolist(), 'info': info})
                 continue
             cases2.append((case_input(kind, m), out2, rep))
+            if m.t.shape[1] <= 8 and len(casesi) < 40 and i % 3 == 0:
+                dense = lambda A: zrows(np.asarray(A.toarray()).astype(int))
+                three = kind in ('tet', 'hex', 'wedge')
+                casesi.append((case_input(kind, m), clist([dense(m.p2f), dense(m.p2t), dense(m.p2e) if three else '(@nil (list Z))',
+                                                          dense(m.e2t) if three else '(@nil (list Z))']), rep))
             if len(ctx.cov['samples']) < 3 and i == 1:
                 ctx.sample({'kind': kind, 'info': info, 't': m.t.T.tolist(), 'facets': m.facets.T.tolist(),
                             't2f': m.t2f.tolist(), 'f2t': m.f2t.tolist()})
@@ -287,6 +304,7 @@ def _correspond(ctx, rng):
                 casesf.append((case_input(kind, m), outf, rep))
     ctx.corr('tables', imports, 'run2', 'zsss_eqb', cases2, per_file=min(400, -(-len(cases2) // 4)), defs=defs, nontrivial=lambda r: r[3])
     ctx.corr('tables3d', imports, 'run3', 'zsss_eqb', cases3, per_file=min(400, -(-len(cases3) // 3)), defs=defs, nontrivial=lambda r: r[3])
+    ctx.corr('incidence', imports, 'runinc', 'zsss_eqb', casesi, per_file=min(400, -(-len(casesi) // 2)), defs=defs, nontrivial=lambda r: r[3])
     ctx.corr('f2e', imports, 'runf2e', 'zss_eqb', casesf, per_file=min(400, -(-len(casesf) // 2)), defs=defs, nontrivial=lambda r: r[3])
 
 
